@@ -1,5 +1,5 @@
 """C07 - homology over a Euclidean domain: assembly of rank / torsion / coordinate maps from the SNF blocks (E19)."""
-import e19_homcalc, e2_float
+import e19_homcalc, e3_gcd, e2_float
 
 LEVEL = 'other'
 EXPLANATION = ('Given Smith normal forms with P*P^-1 = 1, Q*Q^-1 = 1 (C09), the homology record is assembled from row/column ranges of those '
@@ -25,4 +25,6 @@ def run(ctx, rep):
     rep.rule('E19', e19_homcalc.__doc__.strip().split('\n')[0])
     e19_homcalc.run(facts, rep)
     e19_homcalc.check_summand(facts, rep)
+    rep.rule('E3', e3_gcd.__doc__.strip().split('\n')[0])
+    e3_gcd.run(facts, rep)
     e2_float.apply(facts, rep, scope, 'C07', floor_scope=5)
